@@ -466,8 +466,10 @@ def replay(check, path):
                 print("  clause=%s" % v.get("clause"))
                 print("  detail=%s" % json.dumps(v.get("detail"), default=_json_default)[:3000])
                 break
-        for line in r["res"].get("tail", [])[-40:]:
+        for line in r["res"].get("tail", [])[-int(os.environ.get("VERIF_TAIL", "25")):]:
             print("   | " + line)
+        for th in r["res"].get("threads", []):
+            print("   thread %s" % (th,))
         print("VIOLATION property=%s replay=%s" % (check.prop, path))
         return 1
     print("replay did not reproduce signature %s" % doc["signature"])
@@ -590,6 +592,8 @@ def base_result(sim, violations, summary=None, extra=None):
         "halt_reason": sim.halt_reason,
         "summary": summary,
         "tail": list(sim.tail)[-120:] if violations else [],
+        "threads": [(t.role, t.state, repr(t.wait_on), type(t.exc).__name__ if t.exc else None)
+                    for t in sim.threads] if violations else [],
     }
     if extra:
         res.update(extra)
